@@ -11,11 +11,11 @@ import (
 var vpNames = []string{"a", "b", "c"}
 
 type vpConstr struct {
-	vars   []int  // indices into vpNames
-	neg    []bool // possibly symbolic
-	coeffs []int  // possibly symbolic (all 1 when the constraint is built with nil coeffs)
+	vars    []int  // indices into vpNames
+	neg     []bool // possibly symbolic
+	coeffs  []int  // possibly symbolic (all 1 when the constraint is built with nil coeffs)
 	atLeast int
-	weight int // 0 = hard
+	weight  int // 0 = hard
 }
 
 func vpBitOf(a int, v int) bool { return (a>>uint(v))&1 == 1 }
@@ -176,7 +176,7 @@ func VP_C04_maxsat_api() {
 func VP_C04_maxsat_wcnf() {
 	zzvp.IntMode(true)
 	n := zzvp.Choose("n", zzvp.Param("n", 2)) + 1 // highest variable used <= n
-	extra := zzvp.Choose("extra", 2)                // declared-but-unused variables
+	extra := zzvp.Choose("extra", 2)              // declared-but-unused variables
 	m := zzvp.Choose("m", zzvp.Param("m", 2)) + 1
 	K := zzvp.Param("k", 2)
 	W := zzvp.Param("W", 2)
@@ -436,4 +436,115 @@ func VP_C16_maxsat() {
 	zzvp.RaceDetect(false)
 	zzvp.Assert(r1 == w1 && r2 == w2, "a MaxSAT use run concurrently with another returned something else than when run alone")
 	zzvp.Reach("two-uses")
+}
+
+// ---- skeletons: more constraints than the fully symbolic harness can afford ----
+
+type vpSkConstr struct {
+	lits   []int // +-(index into vpSkNames + 1)
+	weight int   // 0 = hard
+}
+
+var vpSkNames = []string{"a", "e", "f", "g", "h"}
+
+var vpMaxSATSkeletons = []struct {
+	n int
+	c []vpSkConstr
+}{
+	// 0: two hard clauses, seven weighted unit clauses with distinct weights, some of them contradicting each other
+	{4, []vpSkConstr{{[]int{2, 1}, 0}, {[]int{-2}, 40}, {[]int{4}, 15}, {[]int{-1}, 29}, {[]int{-3}, 13}, {[]int{4, 3}, 0}, {[]int{-1}, 14}, {[]int{1}, 1}, {[]int{-4}, 27}}},
+	// 1: a chain of hard implications, soft clauses pulling both ways
+	{5, []vpSkConstr{{[]int{-1, 2}, 0}, {[]int{-2, 3}, 0}, {[]int{-3, 4}, 0}, {[]int{1}, 9}, {[]int{-4}, 7}, {[]int{-2}, 3}, {[]int{3, 5}, 5}, {[]int{-5}, 2}, {[]int{-3, -5}, 4}, {[]int{5, 1}, 6}}},
+}
+
+// VP_C04_maxsat_skeleton: fixed constraint structures (9-10 constraints over
+// 4-5 variables: several improving models before the optimum); the first nw
+// soft weights range over base-W..base+W and the first maxsigns soft-clause
+// polarities are symbolic.
+func VP_C04_maxsat_skeleton() {
+	zzvp.IntMode(true)
+	zzvp.MapOrder(zzvp.Param("maporder", 1))
+	sk := vpMaxSATSkeletons[zzvp.Choose("skeleton", zzvp.Param("nskel", len(vpMaxSATSkeletons)))]
+	nw, ns, W := zzvp.Param("nw", 2), zzvp.Param("maxsigns", 3), zzvp.Param("W", 1)
+	type rc struct {
+		lits   []int
+		neg    []bool
+		weight int
+		hard   bool
+	}
+	var ref []rc
+	var cs []Constr
+	cw, cs2 := 0, 0
+	for _, c := range sk.c {
+		r := rc{lits: c.lits, weight: c.weight, hard: c.weight == 0}
+		lits := make([]Lit, len(c.lits))
+		for i, l := range c.lits {
+			neg := l < 0
+			if c.weight != 0 && cs2 < ns {
+				cs2++
+				neg = zzvp.Bool("neg")
+			}
+			r.neg = append(r.neg, neg)
+			v := l
+			if v < 0 {
+				v = -v
+			}
+			lits[i] = Lit{Var: vpSkNames[v-1], Negated: neg}
+		}
+		if c.weight != 0 && cw < nw {
+			cw++
+			// a neighbourhood of the skeleton's weight: base-W .. base+W, at least 1
+			dw := zzvp.Int("dw", -W, W)
+			zzvp.Assume(c.weight+dw >= 1)
+			r.weight = c.weight + dw
+		}
+		if c.weight == 0 {
+			cs = append(cs, HardClause(lits...))
+		} else {
+			cs = append(cs, WeightedClause(lits, r.weight))
+		}
+		ref = append(ref, r)
+	}
+	holds := func(r rc, val func(v int) bool) bool {
+		res := false
+		for i, l := range r.lits {
+			v := l
+			if v < 0 {
+				v = -v
+			}
+			res = zzvp.Or(res, zzvp.Eqv(val(v-1), zzvp.Not(r.neg[i])))
+		}
+		return res
+	}
+	min := vpInf
+	for a := 0; a < 1<<uint(sk.n); a++ {
+		hard, cost := true, 0
+		for _, r := range ref {
+			h := holds(r, func(v int) bool { return vpBitOf(a, v) })
+			if r.hard {
+				hard = zzvp.And(hard, h)
+			} else {
+				cost += zzvp.Ite(h, 0, r.weight)
+			}
+		}
+		min = zzvp.Ite(zzvp.And(hard, cost < min), cost, min)
+	}
+	pb := New(cs...)
+	model, cost := pb.Solve()
+	zzvp.Assert(model != nil, "the hard clauses of the skeleton are satisfiable but no model was returned")
+	if model == nil {
+		return
+	}
+	zzvp.Reach("sat")
+	viol := 0
+	for _, r := range ref {
+		h := holds(r, func(v int) bool { return model[vpSkNames[v]] })
+		if r.hard {
+			zzvp.Assert(h, "a hard constraint is violated by the returned model")
+		} else {
+			viol += zzvp.Ite(h, 0, r.weight)
+		}
+	}
+	zzvp.Assert(cost == viol, "reported cost differs from the weight of the violated soft constraints")
+	zzvp.Assert(cost == min, "reported cost is not minimal")
 }
